@@ -15,18 +15,22 @@
 (*          is in ips but not in serving), `recs` the zone's records incl.   *)
 (*          the NS sets of its cuts and glue, `cuts` the delegated children; *)
 (*   roots  the root hints;                                                  *)
-(*   inj    what hostile servers add to their responses: set of              *)
-(*          [ip, sec, when, r] -- record r in section sec of every response  *)
-(*          (when = "any") or of the responses to questions of type `when`;  *)
-(*   denyS, denyA   addresses excluded by the server / answer filter.        *)
-EXTENDS Naturals, Sequences, FiniteSets
+(*   inj    what hostile (or broken) servers add to their responses: set of  *)
+(*          [ip, sec, when, qn, r] -- record r in section sec of the         *)
+(*          responses to questions of type `when` ("any": every type) about  *)
+(*          name qn (<<"*">>: every name);                                   *)
+(*   conc   the concrete address (AccessOps) each address string stands for; *)
+(*   denyS, denyA   the configured server / answer filter: access control    *)
+(*          sets [allow, deny] of networks (AccessOps).                      *)
+(* Address records are of type "A" or "AAAA" according to their address.     *)
+EXTENDS AccessOps
 
 Root == <<>>
 InZone(n, z) == Len(z) <= Len(n) /\ SubSeq(n, Len(n) - Len(z) + 1, Len(n)) = z
 Parent(n) == Tail(n)
 
 Rec(o, t, d) == [o |-> o, t |-> t, d |-> d]
-IsAddr(r) == r.t = "A"
+IsAddr(r) == r.t \in {"A", "AAAA"}
 AddrOf(r) == r.d[1]
 
 (***************************************************************************)
@@ -53,8 +57,9 @@ AddrKnownBy(net, log, k) ==
     net.roots \cup {AddrOf(r) : r \in {x \in GoodlyReceived(net, SubSeq(log, 1, k)) : IsAddr(x)}}
 
 \* C19_Filters
-DeniedContact(net, ip) == ip \in net.denyS
-DeniedAnswers(net, recs) == {r \in recs : IsAddr(r) /\ AddrOf(r) \in net.denyA}
+DeniedBy(net, acs, ip) == ip \in DOMAIN net.conc /\ Denied(acs, net.conc[ip])
+DeniedContact(net, ip) == DeniedBy(net, net.denyS, ip)
+DeniedAnswers(net, recs) == {r \in recs : IsAddr(r) /\ DeniedBy(net, net.denyA, AddrOf(r))}
 
 (***************************************************************************)
 (* C19_Terminates: the number of upstream queries of one resolution is     *)
@@ -72,8 +77,27 @@ AddrsOf(net) == net.roots \cup UNION {z.ips \cup z.serving : z \in net.zones}
 NamesOf(net) == {r.o : r \in UNION {z.recs : z \in net.zones}}
             \cup {r.d : r \in {x \in UNION {z.recs : z \in net.zones} : x.t \in {"NS", "CNAME"}}}
             \cup {z.apex : z \in net.zones}
-Bound(net, lim) ==
-    4 * Cardinality(AddrsOf(net)) * (Cardinality(NamesOf(net)) + 1) * (lim.ns + lim.rec + 2)
+\* MAX_CNAME_LOOKUPS: "maximum number of cname records to look up in a CNAME chain, regardless of the
+\* recursion depth limit" (recursor/handle.rs); it bounds the alias lookups of one client question
+\* whatever shape the aliases have (chains, loops, trees of several aliases per response)
+MaxCnameLookups == 64
+InfraNames(net) == {z.apex : z \in net.zones} \cup {r.d : r \in {x \in UNION {z.recs : z \in net.zones} : x.t = "NS"}}
+MaxLabels(net) == LET ns == NamesOf(net) IN IF ns = {} THEN 0 ELSE Len(CHOOSE n \in ns : \A m \in ns : Len(m) <= Len(n))
+\* one name: finding (or failing to find) the servers of every zone and nameserver name of the
+\* internet, each address asked for each purpose as often as the depth limits allow, plus the walk
+\* down the name's own labels
+PerName(net, lim) ==
+    4 * Cardinality(AddrsOf(net)) * (Cardinality(InfraNames(net)) + MaxLabels(net) + 2) * (lim.ns + lim.rec + 2)
+\* one client question: its own name and at most MaxCnameLookups alias targets
+Bound(net, lim) == (MaxCnameLookups + 1) * PerName(net, lim)
+
+\* the alias targets looked up so far: names some received CNAME record points at that were then asked
+\* about upstream
+AliasTargetsAsked(log) ==
+    LET targets == {r.d : r \in {x \in UNION {log[i].recs : i \in DOMAIN log} : x.t = "CNAME"}}
+    IN {log[i].qn : i \in DOMAIN log} \cap targets
+\* (one more than the limit: the question's own name may itself be somebody's alias target)
+AliasBudgetOk(log, questions) == Cardinality(AliasTargetsAsked(log)) <= questions * (MaxCnameLookups + 1)
 
 \* alias chasing in the stub resolver (CachingClient): "ends with an answer or an error after a number of
 \* upstream queries bounded by" its hop limit: the first query plus at most StubHops followed aliases
@@ -109,14 +133,15 @@ Honest(net, ip, qn, qt) ==
                     ELSE IF below # {} \/ qn = z.apex THEN Resp("noerror", TRUE, {}, {Soa(z)}, {})
                     ELSE Resp("nxdomain", TRUE, {}, {Soa(z)}, {})
 
-Injected(net, ip, sec, qt) == {i.r : i \in {x \in net.inj : x.ip = ip /\ x.sec = sec /\ x.when \in {"any", qt}}}
+Injected(net, ip, sec, qn, qt) ==
+    {i.r : i \in {x \in net.inj : x.ip = ip /\ x.sec = sec /\ x.when \in {"any", qt} /\ x.qn \in {<<"*">>, qn}}}
 
 \* what the server at ip really sends: the honest response plus whatever it is scripted to add
 Sent(net, ip, qn, qt) ==
     LET h == Honest(net, ip, qn, qt) IN
-    [h EXCEPT !.an = @ \cup Injected(net, ip, "an", qt),
-              !.ns = @ \cup Injected(net, ip, "ns", qt),
-              !.ad = @ \cup Injected(net, ip, "ad", qt)]
+    [h EXCEPT !.an = @ \cup Injected(net, ip, "an", qn, qt),
+              !.ns = @ \cup Injected(net, ip, "ns", qn, qt),
+              !.ad = @ \cup Injected(net, ip, "ad", qn, qt)]
 
 AllOf(resp) == resp.an \cup resp.ns \cup resp.ad
 =============================================================================
